@@ -21,6 +21,7 @@ func partPoseStreams(c *check.Ctx, a *acc) {
 	var mu sync.Mutex
 	done, nontrivial := 0, 0
 	tot := e2.PoseStats{}
+	tsModes := map[string]int{}
 	var samples []any
 	procs := map[time.Duration]*sut.Proc{}
 	for _, f := range frames {
@@ -44,6 +45,7 @@ func partPoseStreams(c *check.Ctx, a *acc) {
 		tot.Deleted += st.Deleted
 		tot.Dropped += st.Dropped
 		tot.FinalChecked += st.FinalChecked
+		tsModes[st.TimestampMode]++
 		if st.Inconclusive != "" {
 			c.Inconc(st.Inconclusive)
 		}
@@ -64,7 +66,8 @@ func partPoseStreams(c *check.Ctx, a *acc) {
 	c.Coverage["pose_entities_deleted_mid_stream"] = tot.Deleted
 	c.Coverage["pose_invalid_updates_sent"] = tot.Dropped
 	c.Coverage["pose_final_value_checks"] = tot.FinalChecked
-	a.add(done, nontrivial, "E2 pose streams: an owner streams 5-200 updates over 1-8 entities (per-entity sequence number in px) with seeded gaps of 0-3 frames at frame durations 1/5/15/50 ms, interleaved with deletions and invalid updates (unknown / foreign entity, no pose), watched by 1-3 observers; order-based oracles per observer and entity (strictly increasing, none after the delete relay, invalid ones never), final value after a frame barrier at observers and at a newcomer; non-trivial when at least one update was coalesced away, one relayed and the final value checked", samples...)
+	c.Coverage["pose_streams_by_message_timestamp_mode"] = tsModes
+	a.add(done, nontrivial, "E2 pose streams: an owner streams 5-200 updates over 1-8 entities (per-entity sequence number in px; message timestamps increasing, going backwards, standing still, at the epoch, jumping or random per stream) with seeded gaps of 0-3 frames at frame durations 1/5/15/50 ms, interleaved with deletions and invalid updates (unknown / foreign entity, no pose), watched by 1-3 observers; order-based oracles per observer and entity (strictly increasing, none after the delete relay, invalid ones never), final value after a frame barrier at observers and at a newcomer; non-trivial when at least one update was coalesced away, one relayed and the final value checked", samples...)
 }
 
 func init() {
